@@ -33,10 +33,8 @@ PROFILES = [('heap', 'default'), ('diag', 'default'), ('mm', 'faultfree'),
 
 
 def env_for(hashseed, extra=None):
-  env = dict(os.environ)
-  env.update({'PYTHONHASHSEED': str(hashseed), 'OPENBLAS_NUM_THREADS': '1',
-              'OMP_NUM_THREADS': '1', 'MKL_NUM_THREADS': '1',
-              'PYTHONDONTWRITEBYTECODE': '1'})
+  from sim import cli  # pylint: disable=g-import-not-at-top
+  env = cli.worker_env(hashseed)
   env.update(extra or {})
   return env
 
@@ -277,6 +275,24 @@ MUTANTS = [
     ('c14_returns_internal_list', 'C14',
      [(HEAP, "      result[key] = heapq.nlargest(len(q), q)\n",
        "      q.sort(reverse=True)\n      result[key] = q\n")]),
+    ('c14_store_shared_between_instances', 'C14',
+     [(HEAP, "    self._result = collections.defaultdict(list)\n",
+       "    self._result = self._shared\n"),
+      (HEAP, "  def __init__(self, size: int):\n",
+       "  _shared = collections.defaultdict(list)\n\n"
+       "  def __init__(self, size: int):\n")]),
+    ('c08_impact_term_cached_per_class_by_length', 'C08',
+     [(DIAG, "  @functools.lru_cache()\n  def _impact_estimate(\n      self,\n",
+       "  _terms = {}\n\n  def _impact_estimate(\n      self,\n"),
+      (DIAG, "    phi = stats.f(dfn=1, dfd=n - 1).ppf(flevel)\n",
+       "    if n in self._terms:\n      return self._terms[n]\n"
+       "    phi = stats.f(dfn=1, dfd=n - 1).ppf(flevel)\n"),
+      (DIAG, "    term = (tq_sig + tq_pow) * n_test * sq\n    return term\n",
+       "    term = (tq_sig + tq_pow) * n_test * sq\n"
+       "    self._terms[n] = term * np.std(self._y, ddof=2)\n"
+       "    return self._terms[n]\n"),
+      (DIAG, "    sigma = np.std(self.y, ddof=2) * np.sqrt(1 - corr ** 2)\n",
+       "    sigma = np.sqrt(1 - corr ** 2)\n")]),
     ('c14_search_results_ascending_when_many', 'C14',
      [(MM, "    return output_result\n",
        "    if len(output_result) > 2:\n      output_result[-1], "
